@@ -142,7 +142,7 @@ func captureInner() []tmpl {
 // captures of set-up defaults by value: the closure is defined once, the write must stay in the request
 func captureSetup() []tmpl {
 	var out []tmpl
-	conds := []dimVal{{"every-request", ``}, {"request-1-only", `if ($n == "1") `}}
+	conds := []dimVal{{"every-request", `if (true) `}, {"request-1-only", `if ($n == "1") `}}
 	for ki, k := range capKinds {
 		if k.Name == "object" {
 			continue
